@@ -7,6 +7,7 @@ use vsim::{
     ctx_probes::CallingContexts,
     ctx_spans::CtxSpans,
     fsim::Fsim,
+    otlp_sim::OtlpSim,
     choices::Choices,
     core::{self, BatchCfg, Engine, Part, RunCtx},
 };
@@ -48,6 +49,8 @@ fn engines_for(property: &str) -> Vec<(Box<dyn Engine>, u64, u64)> {
         "C04" => vec![(Box::new(CtxSpans { focus: "C04" }), 60_000, 2_000_000)],
         "C05" => vec![(Box::new(CtxSpans { focus: "C05" }), 60_000, 2_000_000)],
         "C18" => vec![(Box::new(CtxSpans { focus: "C18" }), 60_000, 2_000_000)],
+        "C12" => vec![(Box::new(OtlpSim { focus: "C12" }), 4_000, 150_000)],
+        "C14" => vec![(Box::new(OtlpSim { focus: "C14" }), 4_000, 150_000)],
         "C10" => vec![(Box::new(Fsim { mode: "C10" }), 5_000, 200_000)],
         "C11" => vec![(Box::new(Fsim { mode: "C11" }), 200_000, 5_000_000)],
         _ => vec![],
@@ -60,6 +63,8 @@ fn engine_by_name(name: &str) -> Option<Box<dyn Engine>> {
         "chan-threads" => Some(Box::new(ChanThreads)),
         "calling-contexts" => Some(Box::new(CallingContexts)),
         "ctx-frames" => Some(Box::new(CtxFrames)),
+        "otlp-delivery" => Some(Box::new(OtlpSim { focus: "C12" })),
+        "otlp-routing" => Some(Box::new(OtlpSim { focus: "C14" })),
         "ctx-spans-tree" => Some(Box::new(CtxSpans { focus: "C04" })),
         "ctx-spans-completion" => Some(Box::new(CtxSpans { focus: "C05" })),
         "ctx-spans-traceparent" => Some(Box::new(CtxSpans { focus: "C18" })),
